@@ -238,13 +238,15 @@ func (f *From) SQL() string {
 		kw := map[string]string{"inner": "JOIN", "left": "LEFT JOIN", "right": "RIGHT JOIN"}[f.JT]
 		switch f.Strat {
 		case "hash":
-			kw = map[string]string{"inner": "HASH JOIN", "left": "LEFT HASH JOIN", "right": "RIGHT HASH JOIN"}[f.JT]
+			kw = map[string]string{"inner": "HASH_JOIN", "left": "LEFT HASH_JOIN", "right": "RIGHT HASH_JOIN"}[f.JT]
 		case "straight":
 			kw = "STRAIGHT_JOIN"
+		case "parallelstraight":
+			kw = "PARALLEL STRAIGHT_JOIN"
 		case "parallel":
 			kw = map[string]string{"inner": "PARALLEL JOIN", "left": "PARALLEL LEFT JOIN", "right": "PARALLEL RIGHT JOIN"}[f.JT]
 		case "parallelhash":
-			kw = map[string]string{"inner": "PARALLEL HASH JOIN", "left": "PARALLEL LEFT HASH JOIN", "right": "PARALLEL RIGHT HASH JOIN"}[f.JT]
+			kw = map[string]string{"inner": "PARALLEL HASH_JOIN", "left": "PARALLEL LEFT HASH_JOIN", "right": "PARALLEL RIGHT HASH_JOIN"}[f.JT]
 		}
 		return f.L.SQL() + " " + kw + " " + f.R.SQL() + " ON " + f.On.SQL()
 	}
@@ -258,6 +260,13 @@ func (s *Stmt) SQL() string {
 			kw = " UNION ALL "
 		}
 		out := s.L.SQL() + kw + s.R.SQL()
+		if len(s.With) > 0 {
+			w := make([]string, len(s.With))
+			for i, c := range s.With {
+				w[i] = sqlIdent(c.Name) + " AS (" + c.Q.SQL() + ")"
+			}
+			out = "WITH " + strings.Join(w, ", ") + " " + out
+		}
 		return out + s.limitSQL()
 	}
 	var b strings.Builder
@@ -427,7 +436,7 @@ func (f *From) Coq() string {
 		return "(FDerived " + f.Q.Coq() + " " + coqStr(f.Alias) + ")"
 	case "join":
 		jt := map[string]string{"inner": "JInner", "left": "JLeft", "right": "JRight"}[f.JT]
-		st := map[string]string{"": "SAuto", "auto": "SAuto", "hash": "SHash", "straight": "SStraight", "parallel": "SParallel", "parallelhash": "SParallelHash"}[f.Strat]
+		st := map[string]string{"": "SAuto", "auto": "SAuto", "hash": "SHash", "straight": "SStraight", "parallel": "SParallel", "parallelhash": "SParallelHash", "parallelstraight": "SParallelStraight"}[f.Strat]
 		return "(FJoin " + jt + " " + st + " " + f.L.Coq() + " " + f.R.Coq() + " " + f.On.Coq() + ")"
 	}
 	panic("bad from kind")
@@ -463,6 +472,19 @@ func (it Item) name() string {
 
 func (s *Stmt) Coq() string {
 	if s.Union {
+		if len(s.With) > 0 {
+			// BuildUnion hands the union's WITH clause to both branches (when they have none)
+			l, r := *s.L, *s.R
+			if len(l.With) == 0 {
+				l.With = s.With
+			}
+			if len(r.With) == 0 {
+				r.With = s.With
+			}
+			c := *s
+			c.With, c.L, c.R = nil, &l, &r
+			return c.Coq()
+		}
 		return "(SUnion " + coqBool(s.All) + " " + s.L.Coq() + " " + s.R.Coq() + " " + coqOptInt(s.Limit) + " " + coqOptInt(s.Offset) + ")"
 	}
 	with := make([]string, len(s.With))
